@@ -30,7 +30,8 @@ Record stage := mkStage {
   s_ret : sret;
   s_leave : list time;                 (* delayed calls left with the reactor (delays from the start of the stage) *)
   s_logerr : bool;                     (* log.err(...) without flushing *)
-  s_drop : bool                        (* creates a failed Deferred and drops it *)
+  s_drop : bool;                       (* creates a failed Deferred and drops it *)
+  s_poll : bool                        (* starts a poller: a delayed call that reschedules itself whenever it fires *)
 }.
 
 Record program := mkProgram {
@@ -58,9 +59,10 @@ Record sim := mkSim {
   m_pending : list time;               (* instants of the leftover delayed calls that have not run *)
   m_logged : nat;                      (* errors caught by the error observer, not flushed *)
   m_dropped : nat;                     (* DebugInfo objects holding an unhandled failure *)
+  m_pollers : nat;                     (* pollers started: each always has one instance scheduled *)
   m_log : list (nat * time)            (* stage execution log: (stage, instant it started) *)
 }.
-Definition sim0 := mkSim 0 [] 0 [] 0 0 [].
+Definition sim0 := mkSim 0 [] 0 [] 0 0 0 [].
 
 Definition b2n (b : bool) : nat := if b then 1 else 0.
 
@@ -68,14 +70,14 @@ Definition b2n (b : bool) : nat := if b then 1 else 0.
 Definition start_stage (sid : nat) (st : stage) (m : sim) : sim :=
   mkSim (m_now m) (m_excs m) (m_fails m)
         (m_pending m ++ map (fun l => m_now m + l) (s_leave st))
-        (m_logged m + b2n (s_logerr st)) (m_dropped m + b2n (s_drop st))
+        (m_logged m + b2n (s_logerr st)) (m_dropped m + b2n (s_drop st)) (m_pollers m + b2n (s_poll st))
         (m_log m ++ [(sid, m_now m)]).
 
 (* the clock moves to t: every leftover due up to t (scheduled before the call that
    fires at t) has run *)
 Definition advance (t : time) (m : sim) : sim :=
   mkSim t (m_excs m) (m_fails m) (filter (fun u => Nat.ltb t u) (m_pending m))
-        (m_logged m) (m_dropped m) (m_log m).
+        (m_logged m) (m_dropped m) (m_pollers m) (m_log m).
 
 Inductive sres :=
 | Done (caught : option cls) (m : sim)   (* the stage's Deferred fired at m_now m; the exception it raised / failed with *)
@@ -97,7 +99,8 @@ Definition run_stage (C : time) (sid : nat) (st : stage) (m : sim) : sres :=
 Definition note_failure (c : option cls) (m : sim) : sim :=
   match c with
   | None => m
-  | Some x => mkSim (m_now m) (m_excs m ++ [x]) (S (m_fails m)) (m_pending m) (m_logged m) (m_dropped m) (m_log m)
+  | Some x => mkSim (m_now m) (m_excs m ++ [x]) (S (m_fails m)) (m_pending m) (m_logged m) (m_dropped m)
+                    (m_pollers m) (m_log m)
   end.
 
 (* _run_cleanups: pops and awaits each cleanup; remembers only the LAST exception *)
@@ -214,6 +217,10 @@ Definition junk_of (p : program) (m : sim) : list time :=
   | 0 => m_pending m
   | S _ => filter (fun u => Nat.ltb (m_now m) u) (m_pending m)
   end.
+(* is anything left with the reactor: a leftover call that has not run, or a poller (whether or not the
+   iterations ran one of its instances, the next one is scheduled) *)
+Definition dirty (p : program) (m : sim) : bool :=
+  match junk_of p m with [] => Nat.ltb 0 (m_pollers m) | _ :: _ => true end.
 
 Definition claimed (c : cls) : bool := match c with CKbd => false | _ => true end.
 (* runtest.py:108-117: the last caught exception, unless an earlier one is claimed by no handler *)
@@ -233,9 +240,8 @@ Definition repeat_err (n : nat) : list cls := repeat CErr n.
 Definition finish (p : program) (ok : bool) (unhandled : nat) (stop : bool) (nleft : nat) (m : sim) : outcome :=
   let junk := junk_of p m in
   let excs := m_excs m ++ repeat_err (m_logged m) ++ repeat_err unhandled
-              ++ (match junk with [] => [] | _ :: _ => [CErr] end) in
-  let successful := ok && Nat.eqb (m_logged m) 0 && Nat.eqb unhandled 0
-                    && (match junk with [] => true | _ :: _ => false end) in
+              ++ (if dirty p m then [CErr] else []) in
+  let successful := ok && Nat.eqb (m_logged m) 0 && Nat.eqb unhandled 0 && negb (dirty p m) in
   mkOut ([StartTest] ++ (if successful then [AddSuccess] else [])
            ++ (match pick excs with Some c => [ev_of c] | None => [] end) ++ [StopTest])
         stop
@@ -250,7 +256,7 @@ Definition finish (p : program) (ok : bool) (unhandled : nat) (stop : bool) (nle
    leftovers due before C have run; the clock stands at C *)
 Definition after_cut (C : time) (m : sim) : sim :=
   mkSim C (m_excs m ++ [CErr]) (m_fails m) (filter (fun u => Nat.leb C u) (m_pending m))
-        (m_logged m) (m_dropped m) (m_log m).
+        (m_logged m) (m_dropped m) (m_pollers m) (m_log m).
 
 Definition run (p : program) : outcome :=
   let C := cut_instant p in
